@@ -675,13 +675,13 @@ def generate_numpy_like(expr: Array | Mapping[str, Array] | DictOfNamedArrays,
     result_var = cgen_mapper(expr)
 
     from keyword import iskeyword
-    for arg_name in sorted(cgen_mapper.arg_names):
+    for arg_name in [function_name, *sorted(cgen_mapper.arg_names)]:
         if iskeyword(arg_name):
-            # a valid identifier for Array names, but it cannot be an
-            # argument of the generated function
+            # a valid identifier for Array names, but it cannot be the name
+            # or an argument of the generated function
             raise ValueError(f"'{arg_name}' is a Python keyword and cannot be"
-                             " the name of an argument of the generated"
-                             " function.")
+                             " the name or the name of an argument of the"
+                             " generated function.")
 
     lines = cgen_mapper.lines
     lines.append(ast.Return(ast.Name(result_var)))
